@@ -61,6 +61,9 @@ type Knobs struct {
 	NoBalanceOrigins bool
 	// OverdraftFlag: the overdraft() function may be used (the case carries the feature flag)
 	OverdraftFlag bool
+	// PWeirdAccount: chance that an account is written through a variable whose text is not
+	// an account name of the literal grammar (empty, the kept marker, blanks, sigils)
+	PWeirdAccount int
 	// POverUnity: chance that an allotment has a `remaining` clause while its other portions
 	// add up to more than one (and `remaining` anywhere, not only last)
 	POverUnity int
@@ -310,7 +313,12 @@ func (g *TG) AssetExpr(a string) *Expr {
 	return Asset(a)
 }
 
+var weirdAccounts = []string{"", "<kept>", " ", "a b", "@a", "a::b", "a:", ":a", "é", "world ", "<kept> "}
+
 func (g *TG) AcctExpr(a string) *Expr {
+	if g.pct("acct.weird", g.K.PWeirdAccount) {
+		return Var(g.declare("account", pickS(g, "acct.weird.v", weirdAccounts)))
+	}
 	if d, ok := g.reuse("acct", "account", func(t string) bool { return t == a }); ok {
 		return Var(d.Name)
 	}
